@@ -36,6 +36,45 @@ FUNCS = ['premade_lib.compute_keypoints', 'premade_lib._weighted_quantile',
          'premade_lib.compute_label_keypoints']
 
 
+def _no_inplace_on_arguments(prog, res):
+  """K7: the keypoint helpers receive the caller's arrays (values, weights:
+  any dtype, often integer counts).  Arithmetic on them must build new arrays;
+  `weights /= counts` divides in place: numpy refuses it for an integer array
+  (UFuncTypeError instead of keypoints) and otherwise overwrites the caller's
+  data."""
+  n = 0
+  for q in ('compute_keypoints', '_weighted_quantile',
+            'compute_label_keypoints', 'compute_feature_keypoints',
+            'compute_custom_label_keypoints'):
+    try:
+      fn = prog.function('premade_lib.' + q)
+    except AnalysisError:
+      continue
+    res.analysed(fn)
+    params = set(fn.all_params)
+    # names that still alias an argument: the parameter itself until it is
+    # rebound to a fresh array (np.array / astype / arithmetic / indexing
+    # with a mask all copy; np.asarray and plain names do not)
+    bad = []
+    for st in ast.walk(fn.node):
+      if isinstance(st, ast.AugAssign) and isinstance(
+          st.target, ast.Name) and st.target.id in params and isinstance(
+              st.op, (ast.Div, ast.Mult, ast.Sub, ast.Add, ast.FloorDiv,
+                      ast.Pow)) and not isinstance(
+                          st.value, (ast.List, ast.Tuple)):
+        bad.append(st)
+    n += 1
+    res.check(not bad, 'K7', '%s|in-place' % fn.qualname,
+              fn.loc(bad[0] if bad else None),
+              'no augmented arithmetic on an argument array',
+              '`%s` updates the argument `%s` in place: integer / bool arrays '
+              'raise UFuncTypeError (same_kind casting) and the caller\'s '
+              'array is overwritten' % (
+                  norm_text(bad[0])[:50] if bad else '',
+                  bad[0].target.id if bad else ''))
+  return n
+
+
 def run(prog, res):
   total = unres = 0
   for q in FUNCS:
@@ -48,6 +87,27 @@ def run(prog, res):
   res.extra['numpy_calls_without_introspectable_signature'] = unres
   res.floor('V5', 20)
   res.floor('V5t', 2)
+  _no_inplace_on_arguments(prog, res)
+  res.floor('K7', 3)
+  # K8: labels of EVERY numeric dtype - integer class ids and counts included
+  # - take the numeric branch; np.floating / np.inexact would send integer
+  # labels down the string branch (keypoints 0..n-1 instead of label values)
+  fn = prog.function('premade_lib.compute_label_keypoints')
+  calls = [c for c in ast.walk(fn.node) if isinstance(c, ast.Call) and (
+      prog.ext_name(fn.module, c.func) or '') == 'np.issubdtype']
+  if not calls:
+    raise AnalysisError('compute_label_keypoints: the numeric-dtype test '
+                        'vanished')
+  for i, c in enumerate(calls):
+    kind = dotted(c.args[1]) if len(c.args) > 1 else None
+    res.check(kind == 'np.number', 'K8',
+              'premade_lib.compute_label_keypoints|numeric-dtype%s' % (
+                  '#%d' % (i + 1) if i else ''), fn.loc(c),
+              'numeric labels are recognised with np.number',
+              'labels are tested with np.issubdtype(..., %s): integer labels '
+              'are not numeric under this test and are treated as category '
+              'names' % kind)
+  res.floor('K8', 1)
   from ..rules import divisors
   divisors.check(prog, res, [prog.function(q) for q in FUNCS])
   res.floor('D3', 1)
